@@ -195,7 +195,7 @@ func (i Int32) ExponentiateInt32(other Int32) Int32 {
 	}
 	result := i
 	var j Int32
-	for j = 2; j <= other; j++ {
+	for j = other; j > 1; j-- {
 		result *= i
 	}
 	return result
